@@ -36,6 +36,16 @@ def call(ex, st, fn, args, kw, node):
         if isinstance(v, Sym) and v.ty.kind in ("str", "seqlist"): yield st, Sym(INT, z3.Length(v.z)); return
         if isinstance(v, Sym) and v.ty.kind == "tuple": yield st, len(v.ty.args); return
         yield st, len(v); return
+    if name == "getattr" and len(args) in (2, 3) and isinstance(args[1], str) and not kw:
+        obj, attr = args[0], args[1]
+        if len(args) == 3 and (obj is None or isinstance(obj, (str, int, bytes)) or (isinstance(obj, Sym) and obj.ty.kind in ("str", "int", "bool", "dec"))) and attr not in ("real", "imag"):
+            yield st, args[2]; return              # plain values have no such attribute (the attributes asked for here are names like 'name')
+        if isinstance(obj, Ref):
+            for s2, v in ex.getattr(st, obj, attr):
+                if isinstance(v, Raise) and len(args) == 3 and s2.heap[v.exc.oid].get("__class__", getattr(v.exc, "cls", None)) in ("AttributeError", None) and getattr(v.exc, "cls", "") == "AttributeError":
+                    yield s2, args[2]
+                else: yield s2, v
+            return
     if name == "isinstance":
         v, t = args
         tn = getattr(t, "name", None) or getattr(getattr(t, "info", None), "name", None)
@@ -49,6 +59,9 @@ def call(ex, st, fn, args, kw, node):
             if isinstance(v, (tuple, list, dict)) and not isinstance(v, Opaque): yield st, type(v).__name__ == tn; return
             if isinstance(v, UFL): yield st, tn == "list"; return
             if isinstance(v, UFDict): yield st, tn == "dict"; return
+        if tn == "bool":
+            if isinstance(v, Sym): yield st, v.ty.kind == "bool"; return
+            yield st, isinstance(v, bool); return
         if tn == "int":
             if isinstance(v, Sym) and v.ty.kind == "opt" and v.ty.args[0].kind == "int": yield st, Sym(BOOL, z3.Not(sort_of(v.ty).is_none(v.z))); return
             if isinstance(v, Sym): yield st, v.ty.kind == "int"; return
